@@ -154,6 +154,8 @@ var c03Spec = fw.Spec[c03Case]{
 		return c03RunSched(c, st)
 	},
 	Batch: 1,
+	// the free-running race pass is a dynamic detector: a race it reported may need a few runs to show again
+	ReplayAttempts: 4,
 	BudgetSec: func(tier string) int {
 		if tier == "thorough" {
 			return 3600
